@@ -1,9 +1,18 @@
 from typing import Any
 import base64
+import re
 
 from celpy import celtypes
 
 CEL_PREFIX = "="
+
+# A string that is exactly a decimal numeral is passed through as a CEL number.
+_NUMERAL = re.compile(r"-?[0-9]+(\.[0-9]+)?([eE][+-]?[0-9]+)?")
+
+# Characters that may not appear verbatim inside a (cooked) CEL string literal.
+_STRING_ESCAPES = str.maketrans(
+    {"\\": "\\\\", '"': '\\"', "\n": "\\n", "\r": "\\r", "\t": "\\t"}
+)
 
 ConvertedType = (
     list["ConvertedType"]
@@ -58,7 +67,7 @@ def convert_bools(
 def encode_cel(value: Any) -> str:
     if isinstance(value, dict):
         return f"{{{ ",".join(
-            f'"{f"{key}".replace('"', '\"')}":{encode_cel(value)}'
+            f'{_encode_str(f"{key}")}:{encode_cel(value)}'
             for key, value in value.items()
         ) }}}"
 
@@ -78,31 +87,19 @@ def encode_cel(value: Any) -> str:
         return '""'
 
     if not value.startswith(CEL_PREFIX):
-        if "\n" in value:
-            return f'r"""{ value.replace('"', '\"') }"""'  # fmt: skip
-
-        if '"' in value:
-            return f'"""{ value.replace('"', r'\"') }"""'  # fmt: skip
-
-        return f'"{value}"'  # fmt: skip
+        return _encode_str(value)
 
     return value.lstrip(CEL_PREFIX)
+
+
+def _encode_str(value: str) -> str:
+    """A CEL string literal which evaluates to exactly `value`."""
+    quote = '"""' if '"' in value else '"'
+    return f"{quote}{value.translate(_STRING_ESCAPES)}{quote}"
 
 
 def _encode_plain(maybe_number) -> bool:
     if not isinstance(maybe_number, str):
         return True
 
-    try:
-        int(maybe_number)
-        return True
-    except ValueError:
-        pass
-
-    try:
-        float(maybe_number)
-        return True
-    except ValueError:
-        pass
-
-    return False
+    return _NUMERAL.fullmatch(maybe_number) is not None
